@@ -116,6 +116,7 @@ func genC14(t *rapid.T) C14Case {
 	}
 	fixEmptyLists(tree)
 	u := UniverseFor(t, tree, false)
+	unicodeNames(t, tree, u)
 	hostileLiterals(t, tree, 2)
 	c.U = *u
 	var toks []string
